@@ -92,6 +92,14 @@ impl MetaKeyspace {
             r matches Ok(None) ==> !old(w).meta_names.dom().contains(id),
     { unimplemented!() }
 }
+impl MetaKeyspace {
+    // contract of MetaKeyspace::get_highest_seqno: proved in U-METASEQ from the same clause text, assumed in the other units
+    #[verifier::external_body]
+    pub fn get_highest_seqno(&self, Tracked(w): Tracked<&mut World>) -> (r: Option<u64>)
+        requires self.inner.id@ == 0, old(w).trees.dom().contains(0),
+        ensures *final(w) == *old(w), r == highest(old(w).trees[0]), r is Some ==> r->Some_0 < u64::MAX,
+    { unimplemented!() }
+}
 pub struct AnyTree { pub id: Ghost<u64> }
 pub struct Keyspace { pub id: InternalKeyspaceId, pub tree: AnyTree, pub name: StrView }
 impl Clone for Keyspace { #[verifier::external_body] fn clone(&self) -> (r: Keyspace) ensures r == *self { unimplemented!() } }   // Arc clone: same handle
